@@ -174,7 +174,7 @@ impl C13 {
         C13 {
             tier,
             seed,
-            n: scaled(tier.pick(160, 5_000), scale),
+            n: scaled(tier.pick(1_500, 20_000), scale),
         }
     }
 
